@@ -1720,7 +1720,7 @@ class ReactionSystem:
         values, config, original = as_material_array(
             material, self._basis, self._phases, self.chemicals
         )
-        preconverted_material = values if original else values.copy()
+        preconverted_material = values if original is not None else values.copy()
         reactions = self.reactions
         for i, rxn in enumerate(reactions):
             if i == index: break
